@@ -872,7 +872,7 @@ impl<'a> VGen<'a> {
         self.budget -= 1;
         let all_kinds = [ValueKind::Bool, ValueKind::U8, ValueKind::I32, ValueKind::U64, ValueKind::String, ValueKind::Tuple, ValueKind::Enum, ValueKind::Array, ValueKind::Map,
             ValueKind::Custom(ScryptoCustomValueKind::Decimal), ValueKind::Custom(ScryptoCustomValueKind::Reference), ValueKind::Custom(ScryptoCustomValueKind::Own)];
-        if depth > 24 {
+        if depth > 24 || self.budget < -400 {
             self.valid = false;
             return Value::U8 { value: 0 };
         }
@@ -1098,14 +1098,14 @@ impl Runner for R22 {
                 if cs == s && ct == tid && depth == 64 {
                     if let Some((re, same)) = c.try_decode(&p) {
                         if !accepted {
-                            return Answer::fail(ans, format!("typed-accepts-schema-rejects:{}", c.name()), "typed decoder accepted a payload that does not validate against the type's generated schema");
+                            return Answer::fail(ans, format!("typed-accepts-schema-rejects:{}:{}", ans.replace("invalid ", "").replace(' ', "-"), c.name()), "typed decoder accepted a payload that does not validate against the type's generated schema");
                         }
                         if !same {
                             return Answer::fail(ans, format!("typed-roundtrip:{}", c.name()), "decode(encode(x)) != x");
                         }
                         let (a2, acc2, _) = real_validate(&s, tid, depth, &re);
                         if !acc2 {
-                            return Answer::fail(ans, format!("encoded-rejected:{}", c.name()), format!("encoding of a typed value does not validate against the generated schema: {}", a2));
+                            return Answer::fail(ans, format!("encoded-rejected:{}:{}", a2.replace("invalid ", "").replace(' ', "-"), c.name()), format!("encoding of a typed value does not validate against the generated schema: {}", a2));
                         }
                     }
                 }
